@@ -194,9 +194,12 @@ class PVLEncoder(object):
 
         if len(prefix + s + self.newline) > self.width and "=" in s:
             (preq, _, posteq) = s.partition("=")
-            new_prefix = prefix + preq.strip() + " = "
-
             ws = "".join(self.grammar.whitespace)
+            # (only the alignment padding goes: str.strip() without an
+            # argument would also take characters such as U+00A0 off the
+            # parameter name)
+            new_prefix = prefix + preq.strip(ws) + " = "
+
             (protected, restore) = self._protect_whitespace(posteq.strip(ws))
             lines = textwrap.wrap(
                 protected,
